@@ -719,3 +719,16 @@ Proof.
   intros Hroot cs. pose proof (run_inv root rs Hroot cs (init_sess fs root) (init_sess_ok fs root)) as R.
   destruct (run (init_sess fs root) cs) as [[s' xs] f]. destruct R as (_ & R2 & R3). split; auto.
 Qed.
+
+(* an argument that begins with the host-side spelling of the root is an absolute path like
+   any other: no shortcut, it is cleaned and put beneath the root (nested), never returned as is *)
+Lemma real_path_host_spelling root rs cwd suffix :
+  clean_root root rs -> rooted_clean cwd ->
+  real_path root cwd (root ++ suffix) = join2 root (clean (root ++ suffix)) /\
+  inside root (real_path root cwd (root ++ suffix)) /\
+  rooted_clean (real_path root cwd (root ++ suffix)).
+Proof.
+  intros Hroot Hc. split.
+  - destruct Hroot as (_ & _ & ->). unfold real_path. reflexivity.
+  - apply (real_path_inside root rs); auto.
+Qed.
